@@ -149,9 +149,10 @@ func withBundledConfig(ctx context.Context) context.Context {
 		panic(err)
 	}
 	t := val.(rel.Tuple)
-	root := t.MustGet("main_root").String()
-	if root == "{}" {
-		root = unnamedModule
+	// An empty main_root (scripts bundled without a module) evaluates to the empty set.
+	root := unnamedModule
+	if rootVal := t.MustGet("main_root"); rootVal.IsTrue() {
+		root = rootVal.String()
 	}
 	root = ctxfs.ToUnixPath(root)
 
